@@ -107,6 +107,27 @@ def _collect_bindings(root, b):
                     b.setdefault(lid, ("closure-param", i, n))
 
 
+_ELEM_ADAPTORS = ("for_each", "try_for_each", "map", "filter", "filter_map", "flat_map", "all", "any", "find", "find_map", "position",
+                  "inspect", "take_while", "skip_while", "map_while", "min_by_key", "max_by_key", "partition", "retain")
+
+
+_CLO_HOSTS = {}
+
+
+def _closure_host(f, clo):
+    """the method call one of whose arguments is the closure node `clo`"""
+    cache = _CLO_HOSTS.setdefault(id(f), {})
+    if not cache and f.hir:
+        for n, _ in walk(f.hir):
+            if n.get("k") == "MethodCall":
+                for a in n["args"]:
+                    a = peel(a)
+                    if isinstance(a, dict) and a.get("k") == "Closure":
+                        cache[id(a)] = n
+        cache[None] = None
+    return cache.get(id(peel(clo)))
+
+
 def unwrap_try(n):
     """`e?` -> e ; `e.unwrap()` etc -> e"""
     n = peel(n)
@@ -174,6 +195,11 @@ def origins(db, f, expr, depth=3, _seen=None):
                             out |= origins(db, cf, args[b[1]], depth - 1, _seen)
             else:
                 out.add(("closure-param",))
+                host = _closure_host(f, b[2])
+                # the closure of an iterator adaptor receives the elements of the receiver
+                if host is not None and (b[1] == 0 and host["method"] in _ELEM_ADAPTORS or b[1] == 1 and host["method"] in ("fold", "try_fold")):
+                    for o in origins(db, f, host["recv"], depth, _seen):
+                        out.add(("field", o[1], o[2], True) if o[0] == "field" else o)
             return out
         if e.get("val") is not None:
             out.add(("const", e["val"]))
@@ -285,3 +311,28 @@ def resolve_let(db, f, expr, depth=4):
         else:
             break
     return e
+
+
+def owners(db, f, depth=2):
+    """f itself plus every function f was (apparently) extracted from: f is private, not a trait method, and every one of its call
+    sites lies in one single function of the same file (transitively).  A table entry naming the original function then also
+    covers code that was moved into a private helper of it."""
+    out = [f]
+    ix = index(db)
+    cur = f
+    # a closure belongs to the function it is written in
+    while cur.info.get("kind") == "Closure" and cur.info.get("parent") in db.fns:
+        cur = db.fns[cur.info["parent"]]
+        out.append(cur)
+    for _ in range(depth):
+        if cur.trait or cur.info.get("vis") == "Public":
+            break
+        cs = {cf.key for cf, _ in ix.callsites.get(cur.key, [])}
+        if len(cs) != 1:
+            break
+        nxt = db.fns[cs.pop()]
+        if (nxt.info.get("span") or "").split(":")[0] != (cur.info.get("span") or "").split(":")[0] or nxt in out:
+            break
+        out.append(nxt)
+        cur = nxt
+    return out
